@@ -181,6 +181,13 @@ def schedule (cfgs : List Bytes) (at_ : List Nat) (gen0 m : Nat) : Nat → DevSt
   let n := (at_.filter (· ≤ t)).length
   ⟨cfgs.getD (min n (cfgs.length - 1)) [], (gen0 + n) % m⟩
 
+/-- the same device, but cycling through `cfgs` for ever (configuration `k mod |cfgs|` after `k`
+updates): used for *storms* — an update before each of a long run of reads, so that many successive
+attempts of `read_consistent` are interrupted and the contents keep changing -/
+def scheduleCyc (cfgs : List Bytes) (at_ : List Nat) (gen0 m : Nat) : Nat → DevState Bytes := fun t =>
+  let n := (at_.filter (· ≤ t)).length
+  ⟨cfgs.getD (n % cfgs.length) [], (gen0 + n) % m⟩
+
 /-! ### line protocol -/
 
 def Err.str : Err → String
@@ -230,7 +237,10 @@ def handle (op : String) (a : Proto.Args) : String :=
       | "mac" => progMac w base chunk
       | _ => progTag w base chunk
     let at_ := a.nats "at"
-    let dev := schedule (cfgsOfArgs a) at_ (a.nat "gen0") (a.nat "m" (2 ^ 32))
+    -- `storm=k cyc=1`: an update before each of the first `k` reads, configurations cycling
+    let at_ := if a.nat "storm" > 0 then List.range (a.nat "storm") else at_
+    let dev := if a.bool "cyc" then scheduleCyc (cfgsOfArgs a) at_ (a.nat "gen0") (a.nat "m" (2 ^ 32))
+               else schedule (cfgsOfArgs a) at_ (a.nat "gen0") (a.nat "m" (2 ^ 32))
     match readConsistent p dev (at_.length + 2) 0 with
     | none => "diverge"
     | some (.ok v, t) => s!"ok {Proto.toHex v} ticks={t + a.nat "extra"}"
